@@ -227,6 +227,20 @@ pub fn gen_c05(out: &mut Out, seed: u64, thorough: bool) {
     for i in 0..n {
         let pt = ALL_TYPES[i % 13];
         let mut case = placed_case(&mut rng, pt, 28);
+        // one case in ten: a kernel narrower than the pixel pitch on an up-scale - some destination rows / columns get a
+        // window of zero weights only (empty after trimming) and must still be assigned (the value 0)
+        if i % 10 == 3 {
+            let c = Custom::Wide(*rng.pick(&[0.3, 0.2, 0.45]));
+            case.custom = Some(c);
+            case.alg = AlgSpec::custom(c, rng.below(2) as u8, 1);
+            let (sw, sh) = (case.sshape.width(), case.sshape.height());
+            let (dw, dh) = (sw * rng.range(2, 3) as u32 + rng.below(2) as u32, sh * rng.range(2, 3) as u32 + rng.below(2) as u32);
+            case.crop = if rng.chance(1, 2) { CropSpec::None } else { CropSpec::Box(0.0, 0.0, sw as f64, sh as f64) };
+            // vertical-only / horizontal-only / both
+            let (dw, dh) = match rng.below(3) { 0 => (sw, dh), 1 => (dw, sh), _ => (dw, dh) };
+            case.dshape = placements(dw, dh, rng.below(PLACEMENTS as u64) as usize);
+            out.count("narrow-custom-kernel");
+        }
         if i % 5 == 0 {
             // SuperSampling with every multiplicity, aspect-preserving and not
             let k = rng.range(2, 6) as u32;
@@ -355,7 +369,14 @@ pub fn gen_c13(out: &mut Out, seed: u64, thorough: bool) {
                 sbuf[idx * n..(idx + 1) * n].copy_from_slice(&logical_src[p * n..(p + 1) * n]);
             }
             b.sbuf = sbuf;
+            // dynamic entry with a cropped source: half of the time the source is a CroppedImageMut read through its read-only view
+            let src_mut = b.dynamic && sv == 2 && rng.chance(1, 2);
+            SRC_AS_MUT_VIEW.store(src_mut, std::sync::atomic::Ordering::Relaxed);
             let got_b = run_case(&b, 0x3C);
+            SRC_AS_MUT_VIEW.store(false, std::sync::atomic::Ordering::Relaxed);
+            if src_mut {
+                out.count("source-as-CroppedImageMut");
+            }
             let lb = logical(&b, &got_b);
             let rel = if la.is_some() && la == lb {
                 "ok"
